@@ -612,25 +612,32 @@ PROPS = {
         "assumptions": ["the theorem is about Renamer::rename_with_raw_names; the ParsedPacket wrapper re-parses its result (accepted by the theorem) and asserts the EDNS summary is unchanged - that assert is covered by correspondence (C08 scripts), not by this theorem"],
     },
     "C08": {
-        "module": "DnsModel.Theorems.C08", "theorems": [],
+        "module": "DnsModel.Theorems.C08", "theorems": ["Dns.C08.consistent_view", "Dns.C08.consistent_counts", "Dns.C08.after_decompression", "Dns.C08.recompute_consistent", "Dns.C08.insert_answer_consistent", "Dns.C08.insert_authority_consistent", "Dns.C08.insert_additional_consistent", "Dns.C08.delete_consistent", "Dns.C08.set_ttl_consistent", "Dns.C08.set_ip_consistent", "Dns.C08.set_name_consistent", "Dns.C08.header_consistent", "Dns.C08.rename_fresh", "Dns.C08.question_read", "Dns.C08.PlainObj.pointerFree"],
         "families": [{"name": "script-boundary", "quick": 0, "thorough": 0, "fixed": True}, {"name": "script", "quick": 2500, "thorough": 100000}],
         "oracle": oracle_c08, "nontrivial": nontrivial_script, "shrink": False,
         "rule": "scripts of 1-6 macro operations (open/advance/act/observe/advance, header setters, text insertion, question insertion, rename, recompute, cache reads) over accepted packets in 4 layouts with/without OPT and over empty(); state observed after every operation; non-trivial = distinct scripts with at least one successful mutating operation",
         "level": "other", "explanation": "", "assumptions": [],
     },
     "C09": {
-        "module": "DnsModel.Theorems.C09", "theorems": [],
+        "module": "DnsModel.Theorems.C09", "theorems": ["Dns.C09.insert_exact_answer", "Dns.C09.insert_exact_authority", "Dns.C09.insert_exact_additional", "Dns.C09.delete_exact", "Dns.C09.set_ttl_exact", "Dns.C09.set_ip_exact", "Dns.C09.set_name_exact", "Dns.C09.header_exact", "Dns.C09.first_touch", "Dns.C09.set_name_flagged", "Dns.C09.delete_flagged", "Dns.PlainObj.replace_at", "Dns.resize_write", "Dns.piece_shape"],
         "families": [{"name": "script-boundary", "quick": 0, "thorough": 0, "fixed": True}, {"name": "script", "quick": 2500, "thorough": 100000}],
         "oracle": oracle_c09, "nontrivial": nontrivial_script, "shrink": False,
         "rule": "same scripts as C08; after every operation the decoded message is compared with the message before plus exactly the specified change",
-        "level": "other", "explanation": "", "assumptions": [],
+        "level": "proof",
+        "explanation": "theorems: the decoded message of a pointer-free object is its PlainObj representation (header, question labels + type/class, three lists of canonical record pieces). For every such object and every target position: insert_rr appends exactly the given record at the end of the chosen section and raises only that count; delete removes exactly the record under the cursor and lowers only that count; set_rr_ttl replaces exactly the four TTL bytes, set_rr_ip exactly the address bytes (A/AAAA, right family) of that record; set_raw_name replaces exactly that record's owner name (growing, shrinking or equal length; later section starts move by the difference); the five header setters touch bytes 0-3 only (which bits: C12). All other records, their order, the question, the other header fields and the EDNS summary fields are equal. On an object that still has its parse-time flag (compressed or not) the first set_raw_name/delete first makes it the plain object of the canonical pieces with the cursor on the same record (first_touch: names compared after decompression), then acts as above. "
+                       "correspondence: after every operation of every script the real object's decoded message is compared with the message before plus exactly the specified change",
+        "assumptions": ["each theorem is about one operation from any plain state; sequences follow by chaining them (every conclusion re-establishes the hypothesis PlainObj), the chaining itself is not a Lean statement",
+                        "excluded by hypothesis (known findings, by design): OPT as the target of set-name/set-TTL (KF5), delete/insert on the question (KF1, KF4), clearing QR with answers present (KF3); in-place setters on a still-compressed object (KF2) and rename/recompute at object level are covered by C07 / C08.rename_fresh and the script correspondence"],
     },
     "C10": {
-        "module": "DnsModel.Theorems.C10", "theorems": ["Dns.C10.insert_size_limit", "Dns.C10.insert_failure_plain", "Dns.C10.insert_too_large"],
+        "module": "DnsModel.Theorems.C10", "theorems": ["Dns.C10.insert_size_limit", "Dns.C10.insert_failure_plain", "Dns.C10.insert_too_large", "Dns.C10.delete_void_unchanged", "Dns.C10.set_name_invalid", "Dns.C10.set_name_arg_total", "Dns.C10.set_name_void", "Dns.C10.set_ip_failure", "Dns.C10.rename_failure"],
         "families": [{"name": "script-big", "quick": 0, "thorough": 0, "fixed": True}, {"name": "script-fail", "quick": 2500, "thorough": 100000}, {"name": "script", "quick": 500, "thorough": 20000}],
         "oracle": oracle_c10, "nontrivial": lambda c, a: "err:" in a, "shrink": False,
         "rule": "scripts biased to failing arguments (ill-formed / over-long names, tombstone cursors, malformed and out-of-range record texts, second question, overflowing renames); non-trivial = distinct scripts in which at least one operation failed",
-        "level": "other", "explanation": "", "assumptions": [],
+        "level": "proof",
+        "explanation": "theorems: for every object (any size, compressed or not), section and record bytes a successful insert_rr leaves at most 8192 bytes, and a packet that would exceed the limit is refused with PacketTooLarge; on a pointer-free object every failing insert_rr (too large, second question, 65535 records) returns the object given; delete / set_raw_name through the cursor of a deleted record report VoidRecord and return object and cursor as they were; an invalid or over-long name is refused by the (total) checker before any byte moves; set_rr_ip with the wrong family or on a non-address record returns the object unchanged; a rename that overflows a name returns the object unchanged. An unchanged object trivially still satisfies C08. "
+                       "correspondence: scripts biased to failing arguments and packets around/beyond 8192 and 65535 bytes; after every failed call the decoded message and the object view must equal those before",
+        "assumptions": ["partial: not covered by a theorem (script correspondence only): malformed record text at the object API (refused by synthesis, C13.excluded_is_error, before insertion is attempted), set_raw_name refused for size (returns the object with its question cache emptied), failing insertion into a still-compressed object (decompressed first: bytes change, decoded message does not)"],
     },
     "C11": {
         "module": "DnsModel.Theorems.C11", "theorems": ["Dns.C11.walk_delete", "Dns.C11.second_delete", "Dns.C11.delete_void_untouched", "Dns.C11.emptied_absent", "Dns.C11.still_accepted", "Dns.C11.plain_of_accepted", "Dns.C11.first_delete", "Dns.delWalk_refines", "Dns.PlainObj.delete_at", "Dns.absWalk_terminates", "Dns.absWalk_sublist", "Dns.absWalk_deleted_gone", "Dns.absWalk_yields_survivors", "Dns.absWalk_perm"],
@@ -748,12 +755,12 @@ MANIFEST_TEXT = {
             "note": NOTE, "technique": "Lean 4 proof (dictionary invariant, emission lemmas, case-fold comparison soundness, parametricity in the output) + model/implementation correspondence + reference decoder oracle"},
     "C07": {"text": "Lean theorems for every accepted packet, every well-formed pointer-free non-root source/target and both modes: the renamer (model: replace_raw, per-type data lengths, OPT in place, the compressor's dictionary) either returns a packet that satisfies the acceptance policy, keeps the header bytes, counts and record order, and whose question, owner names and NS/CNAME/PTR/MX/SOA names are exactly the renamings of the input's (a name, or in suffix mode a suffix on a label boundary, equal to the source up to case is replaced by the target; every other name kept) up to ASCII case with all other bytes incl. OPT identical, or fails with InvalidName because a renamed name would exceed 255 bytes; self-renaming never fails and changes nothing up to case. Real output byte-identical to the model's; oracle compares the decoded result with the specified renaming of the decoded input (matches at every depth, near-misses, case, growth past 255).",
             "note": NOTE, "technique": "Lean 4 proof (replace_raw characterisation, rename relation, compressor invariant reused) + model/implementation correspondence + reference decoder oracle"},
-    "C08": {"text": "State-machine model (packet object + one cursor) of every mutator; after every operation of every script the real object's bytes, public fields, cache and cursor equal the model's, and the oracle re-derives the view from the bytes alone. By-design findings KF1-KF5 are waived only when KNOWN_FINDINGS lists them." + PENDING,
-            "note": NOTE, "technique": "step-wise model/implementation correspondence on operation scripts + reference decoder oracle"},
-    "C09": {"text": "Same scripts as C08; after every operation the decoded message must be the message before with exactly the specified change (abstract list operation on the decoded message)." + PENDING,
-            "note": NOTE, "technique": "step-wise correspondence + abstract-message oracle"},
-    "C10": {"text": "Scripts biased to failing arguments and packets around/beyond 8192 and 65535 bytes: every failed call must leave the decoded message unchanged and the object consistent; insertion never exceeds 8192 bytes. Partial Lean theorems (insertion only): for every object, section and record bytes a successful insert_rr leaves at most 8192 bytes whatever the size it started from; on a pointer-free object a failing insert_rr returns the object unchanged; a packet that would exceed the limit is refused with PacketTooLarge." + PENDING,
-            "note": NOTE, "technique": "step-wise correspondence + abstract-message oracle"},
+    "C08": {"text": "Lean theorems: the invariant Consistent (plain object: header, question, three lists of canonical record pieces with the section starts and counts that follow from them, cleared may-contain-pointers flag, question cache empty or right) implies that the bytes are accepted by the parser, that the parser reports exactly the section starts the object holds, counts = numbers of records, absent start iff empty section, bytes pointer-free, cached question = uncached question; it holds after decompression/recompute of any accepted packet and is preserved by insert (3 sections), delete, set_rr_ttl, set_rr_ip, set_raw_name (after which the cursor still designates the record and next yields the one that followed), and the header setters; a successful object-level rename leaves exactly the view of a fresh parse. Partial: agreement of the EDNS summary fields with a fresh parse after operations on plain objects is not proved (they are shown carried unchanged/shifted), nor the by-design findings KF1-KF5. State-machine model (packet object + one cursor) of every mutator; after every operation of every script the real object's bytes, public fields, cache and cursor equal the model's, and the oracle re-derives the view from the bytes alone." + PENDING,
+            "note": NOTE, "technique": 'Lean 4 proof (representation invariant preserved by every mutator) + step-wise model/implementation correspondence on operation scripts + reference decoder oracle'},
+    "C09": {"text": 'Lean theorems on the piece-list representation of pointer-free objects: insert appends exactly the given record and raises only that count; delete removes exactly the record under the cursor and lowers only that count; set_rr_ttl / set_rr_ip replace exactly the TTL / address bytes of that record; set_raw_name replaces exactly its owner name for growing, shrinking and equal lengths; header setters touch bytes 0-3 only; everything else (other records and their order, question, other header fields, EDNS summary fields) is equal; on a still-flagged (possibly compressed) object the first set_raw_name/delete first turns it into the plain object of the canonical pieces with the cursor carried to the same record. Exclusions are the by-design findings KF1-KF5. Same scripts as C08: after every operation the decoded message must be the message before with exactly the specified change (abstract list operation on the decoded message).',
+            "note": NOTE, "technique": 'Lean 4 proof (piece shape lemmas, replace/delete/insert on the piece lists, resize-then-write byte lemma, decompress-first step) + step-wise correspondence + abstract-message oracle'},
+    "C10": {"text": 'Lean theorems: insertion never yields more than 8192 bytes for any object and reports PacketTooLarge instead; a failing insert_rr on a pointer-free object (too large, second question, full section), delete/set_raw_name through a tombstoned cursor, an invalid or over-long name, set_rr_ip with the wrong family, and an overflowing rename all return the object as it was. Scripts biased to failing arguments and packets around/beyond 8192 and 65535 bytes: every failed call must leave the decoded message unchanged and the object consistent. Not proved (correspondence only): malformed text at the object API, set_raw_name refused for size, failures after the decompress-first step.',
+            "note": NOTE, "technique": 'Lean 4 proof (order of check and modify in the model of each mutator) + step-wise correspondence + abstract-message oracle'},
     "C11": {"text": "Lean theorems: the cursor protocol on a pointer-free packet object (void cursor restarts the section with the current count, live cursor advances, delete = shrink by the record length + void the cursor + decrement the count + clear the section start at zero) refines an abstract walk-and-delete machine on the list of the section's records, for the three record sections, both public walks and every stream of choices; the list machine terminates ((n+1)^2+n+1 steps), removes exactly the chosen records, never yields a deleted record again, yields every survivor, leaves the survivors in order; the object stays a plain object (count = number of records, emptied section absent, bytes accepted, section starts as a fresh parse reports them), other sections/question/header fields untouched; a second delete reports VoidRecord and changes nothing; the first deletion on a still-compressed object decompresses, carries the cursor and removes exactly that record. Not composed into one statement across the decompression step; question section (KF1) and OPT-skipping walk over an additional section holding OPT: correspondence only. Exhaustive deletion walks (every subset of sections of size 0..5, four sections, two layouts, OPT absent/first/last) compare the real iterators with the model and the walk oracle.",
             "note": NOTE, "technique": "Lean 4 proof (piece-list representation of pointer-free objects, refinement of the cursor protocol to a list machine, list lemmas) + exhaustive small-scope correspondence + walk oracle"},
     "C12": {"text": "Lean theorems for all header words and all arguments: set_flags changes only bytes 2-3, keeps opcode and rcode (div/mod by position), sets each of QR AA TC RD RA Z AD CD to the argument's bit and ignores the argument's upper half; set_opcode / set_rcode / set_response / set_tid change only their field; every getter returns the stored field. Real behaviour compared with the model and with the frame condition computed from RFC 1035 field positions, exhaustively over all 65536 flag words in the thorough tier.",
